@@ -409,3 +409,62 @@ def run(prog: Program, chk: Check):
         raise AnalysisError(f"core definition closure unexpectedly small: {st}")
     chk.extra_coverage.update({"artefact_pairs": stats, "exhaustive": True})
     chk.units.update({"nondeterminism_source_calls_classified": nfound, "sections": nsec})
+
+    # ---- G no state survives a compile -------------------------------------------------------------------------------------------------
+    # A module-level table that the compile path writes to makes the second compile in a process depend on the first
+    # (`self.desctypes = desctype_map` then `self.desctypes[alias] = ...` adds the aliases of one closure to the table every
+    # later closure is compiled with): same closure, different bytes.
+    G = chk.rule("C16-G", "the parser and the back ends never write to a module-level table (directly or through an attribute / local that names it)", 1,
+                 "state left behind by one compile changes the output of the next compile of another - or the same - closure in the same process")
+    MUT = {"update", "append", "extend", "insert", "add", "setdefault", "pop", "popitem", "clear", "remove", "discard", "sort", "reverse", "__setitem__", "__delitem__"}
+    ntab = 0
+    for m in prog.modules.values():
+        if not (m.name.startswith("pyrtma.compilers") or m.name in (PAR, "pyrtma.compile")):
+            continue
+        if m.name == "pyrtma.compilers.python_v1":
+            # the deprecated C-header (.h) compiler: not on the path of a YAML definition closure, which is what the property
+            # quantifies over.  (It does add each file's typedefs to its module-level ctypes_map - observation O-11.)
+            continue
+        tables = {k for k, v in m.assigns.items() if isinstance(v, (ast.Dict, ast.List, ast.Set, ast.DictComp, ast.ListComp, ast.SetComp))
+                  or (isinstance(v, ast.Call) and norm(v.func) in ("dict", "list", "set", "defaultdict", "collections.defaultdict", "OrderedDict"))}
+        # tables imported from a sibling module count as well
+        for nm, tgt in m.imports.items():
+            src_mod, _, sym = tgt.rpartition(".")
+            sm = prog.modules.get(src_mod)
+            if sm is not None and sym in sm.assigns and isinstance(sm.assigns[sym], (ast.Dict, ast.List, ast.Set)):
+                tables.add(nm)
+        ntab += len(tables)
+        if not tables:
+            continue
+        for f in m.functions.values():
+            # names of this function / attributes of self that are bound to a table itself (not to a copy)
+            alias = set(tables) - {p for p in f.params()}
+            for n in walk_local(f.node):
+                if isinstance(n, ast.Assign) and isinstance(n.value, ast.Name) and n.value.id in tables:
+                    for t in n.targets:
+                        if path_of(t):
+                            alias.add(path_of(t))
+            if f.cls is not None:
+                for g_ in f.cls.methods.values():
+                    for n in walk_local(g_.node):
+                        if isinstance(n, ast.Assign) and isinstance(n.value, ast.Name) and n.value.id in tables and n.value.id not in g_.params():
+                            for t in n.targets:
+                                if (path_of(t) or "").startswith("self."):
+                                    alias.add(path_of(t))
+            shadow = {t_.id for n in walk_local(f.node) if isinstance(n, ast.Assign) for t_ in n.targets if isinstance(t_, ast.Name) and not (isinstance(n.value, ast.Name) and n.value.id in tables)}
+            alias -= (shadow & tables)
+            for n in walk_local(f.node):
+                hit = None
+                if isinstance(n, (ast.Assign, ast.AugAssign, ast.Delete)):
+                    tg = n.targets if isinstance(n, (ast.Assign, ast.Delete)) else [n.target]
+                    for t in tg:
+                        if isinstance(t, ast.Subscript) and path_of(t.value) in alias:
+                            hit = path_of(t.value)
+                elif isinstance(n, ast.Call) and isinstance(n.func, ast.Attribute) and n.func.attr in MUT and path_of(n.func.value) in alias:
+                    hit = path_of(n.func.value)
+                if hit:
+                    G.bad(fkey(f, n), where(f, n), f"{f.qual} writes to the module-level table behind `{hit}` (`{norm(n)[:70]}`): it is shared by every compile in the process")
+    if ntab < 2:
+        raise AnalysisError(f"anchor vanished: module-level tables of the compile path (found {ntab})")
+    if not G.instances:
+        G.ok(f"{PAR}|no-global-writes", "", f"{ntab} module-level table(s) of the parser / back ends are only read")
